@@ -66,6 +66,9 @@ func gen(r *sim.Rng, tier string) *sim.Case {
 			p["setlen"] = []int{1, 2, 4, 8, 16, 32}[r.N(6)]
 		}
 		p["runes"] = r.N(4) // 0 ascii, 1 mixed widths, 2 all 3-byte, 3 all 4-byte
+		if r.Pct(6) {
+			p["badutf8"] = 1 + r.N(40) // raw invalid bytes inside the character-set string
+		}
 		p["n"] = r.N(201)
 		if r.Pct(10) {
 			p["n"] = r.N(1200)
@@ -407,7 +410,20 @@ func strGen(c *sim.Case, r *sim.Rng, out *sim.WorkerOut, dg *engc.Digest) (*sim.
 		perm[i], perm[j] = perm[j], perm[i]
 	}
 	set := perm[:k]
-	g := randz.NewStrGenerator(string(set), &seededSource{r: sim.NewRng(r.U64())})
+	cs := string(set)
+	if p["badutf8"] > 0 {
+		// bytes that are not valid UTF-8 on their own: as runes each is U+FFFD, and that is what
+		// the configured character set contains; two of them side by side may form a real rune
+		bad := []string{"\xff", "\xa9\xc3", "\xc3", "\xe4\xb8", "\x80\xe2\x82"}[(p["badutf8"]-1)%5]
+		at := 0
+		if k > 1 {
+			at = len(string(set[:p["badutf8"]%k]))
+		}
+		cs = cs[:at] + bad + cs[at:]
+		set = []rune(cs)
+		out.Faults["character_set_with_invalid_utf8_bytes"]++
+	}
+	g := randz.NewStrGenerator(cs, &seededSource{r: sim.NewRng(r.U64())})
 	s := g.Generate(n)
 	dg.Add(s)
 	if !utf8.ValidString(s) || utf8.RuneCountInString(s) != n {
